@@ -46,7 +46,12 @@ def getOp (j : Json) : Option Op := do
     | "store" => pure (.progStore (← jNat a) (← jNat b) (← jInt c))
     | _ => none
   | [k, a, b, c, d] =>
-    if (← jStr k) = "copy" then pure (.progCopy (← jNat a) (← jNat b) (← jNat c) (← jNat d)) else none
+    match ← jStr k with
+    | "copy" => pure (.progCopy (← jNat a) (← jNat b) (← jNat c) (← jNat d))
+    | "mstore" => pure (.progStoreM (← jNat a) (← jNat b) (← jNat c) (← jInt d))
+    | _ => none
+  | [k, a, b, c, d, e] =>
+    if (← jStr k) = "mcopy" then pure (.progCopyM (← jNat a) (← jNat b) (← jNat c) (← jNat d) (← jNat e)) else none
   | _ => none
 
 def getPair (j : Json) : Option (Nat × Nat) := do
